@@ -43,6 +43,11 @@ def n(e, keep_casts=False):
         if op in ("Gt", "Ge"):
             op = FLIP[op]
             a, b = b, a
+        # unsigned arithmetic by a power of two: x % 2^k is x & (2^k - 1), x / 2^k is x >> k (all integers handled here are unsigned)
+        if op == "Rem" and b[0] == "const" and isinstance(b[1], int) and b[1] > 0 and b[1] & (b[1] - 1) == 0:
+            op, b = "BitAnd", ("const", b[1] - 1)
+        elif op == "Div" and b[0] == "const" and isinstance(b[1], int) and b[1] > 1 and b[1] & (b[1] - 1) == 0:
+            op, b = "Shr", ("const", b[1].bit_length() - 1)
         if op in COMM and repr(a) > repr(b):
             a, b = b, a
         return ("bin", op, a, b)
